@@ -568,6 +568,45 @@ func (e *Env) contractForm(name string, n *ast.CallExpr) (Value, bool) {
 		return mergeVal(c, a, b), true
 	case "forall", "exists":
 		return e.quantifier(name, n), true
+	case "sum":
+		// sum(k, lo, hi, body): finite sum over a constant range (expanded)
+		if len(n.Args) != 4 {
+			unsupported("%s: sum(k, lo, hi, body) expects 4 arguments", e.where)
+		}
+		id, ok := n.Args[0].(*ast.Ident)
+		if !ok {
+			unsupported("%s: bound variable must be an identifier", e.where)
+		}
+		l, okL := e.x.simplifyWithPC(e.st, e.toIntTerm(e.expr(n.Args[1]))).Int64()
+		h, okH := e.x.simplifyWithPC(e.st, e.toIntTerm(e.expr(n.Args[2]))).Int64()
+		if !okL || !okH || h-l > 512 {
+			unsupported("%s: sum over a non-constant or too large range", e.where)
+		}
+		acc := IntC(0)
+		for i := l; i < h; i++ {
+			sub := e.sub(map[string]Value{id.Name: Scalar{IntC(i), intT}})
+			acc = Add(acc, sub.toIntTerm(sub.expr(n.Args[3])))
+		}
+		return Scalar{acc, mathIntType}, true
+	case "pow":
+		// pow(b, k): b^k for a constant base; a constant exponent gives a literal, a symbolic one a
+		// table lookup over 0..256 (0 outside)
+		b, okB := e.toIntTerm(e.expr(n.Args[0])).Int64()
+		if !okB {
+			unsupported("%s: pow with a non-constant base", e.where)
+		}
+		kt := e.toIntTerm(e.expr(n.Args[1]))
+		if k, ok := kt.Int64(); ok {
+			if k < 0 || k > 4096 {
+				unsupported("%s: pow exponent out of range", e.where)
+			}
+			return Scalar{IntB(new(big.Int).Exp(big.NewInt(b), big.NewInt(k), nil)), mathIntType}, true
+		}
+		res := IntC(0)
+		for k := int64(256); k >= 0; k-- {
+			res = Ite(Eq(kt, IntC(k)), IntB(new(big.Int).Exp(big.NewInt(b), big.NewInt(k), nil)), res)
+		}
+		return Scalar{res, mathIntType}, true
 	case "isnil":
 		v := e.expr(n.Args[0])
 		t, ok := e.equalValues(v, NilV{})
@@ -1121,10 +1160,28 @@ func (x *Exec) callFunc(e *Env, callee *types.Func, recvExpr ast.Expr, n *ast.Ca
 	}
 	if (e.contract || x.inGlobalInit > 0) && !(c != nil && c.Assumed && !c.Inline) {
 		// contract text / initialisers: execute the body
+		x.specDepth++
+		defer func() { x.specDepth-- }()
 		return x.inlineCall(e, callee, c, args, n)
 	}
 	if c == nil {
 		pp, key := funcKey(callee)
+		// a function of the repository without a contract (for example a helper introduced by a
+		// refactoring) is executed in place: precise, and needs no annotation as long as it stays
+		// in the supported subset and does not recurse
+		if strings.HasPrefix(pp, "github.com/wollac/iota-crypto-demo") && sig.Recv() == nil || (sig.Recv() != nil && strings.HasPrefix(pp, "github.com/wollac/iota-crypto-demo") && !isIfaceRecv(sig)) {
+			rec := false
+			for _, f := range x.frames {
+				if f.name == shortPkg(pp)+"."+key {
+					rec = true
+				}
+			}
+			if cp := x.U.Pkgs[pp]; cp != nil && !rec {
+				if fd, _ := findFunc(cp, key); fd != nil && fd.Body != nil {
+					return x.inlineCall(e, callee, nil, args, n)
+				}
+			}
+		}
 		unsupported("%s: call of %s.%s which has no contract", e.where, pp, key)
 	}
 	x.bindLets(e, n, args, sig.Recv() != nil, nil, false)
@@ -1136,6 +1193,11 @@ func (x *Exec) callFunc(e *Env, callee *types.Func, recvExpr ast.Expr, n *ast.Ca
 	}
 	x.bindLets(e, n, args, sig.Recv() != nil, res, true)
 	return res
+}
+
+func isIfaceRecv(sig *types.Signature) bool {
+	_, ok := sig.Recv().Type().Underlying().(*types.Interface)
+	return ok
 }
 
 func (x *Exec) variadicSlice(e *Env, vt *types.Slice, elems []ast.Expr) Value {
